@@ -334,7 +334,7 @@ class Runner:
             o = ent["listeners"].get(role)
             if o is None:
                 o = getattr(mod, render.pyname(p) + "_" + role)()
-                o._sim_tag = op["inst"]
+                o._sim_tag = ent.get("tag_as", op["inst"])
                 o._sim_role = role
                 ent["listeners"][role] = o
             ls.append(o)
@@ -362,11 +362,22 @@ class Runner:
 
         ent = self.objs[op["inst"]]
         sm = ent["sm"]
+        tag = op["as"]
+        if op["how"] == "copy":
+            # a shallow copy: a second machine over the SAME model and the same listener objects
+            c = copy.copy(sm)
+            c.__dict__["_sim_tag"] = tag
+            self.objs[tag] = {"sm": c, "model": ent.get("model"), "field": ent["field"], "prog": ent["prog"],
+                              "listeners": ent["listeners"], "tag_as": ent.get("tag_as", op["inst"])}
+            SIM.machines[tag] = c
+            SIM.models[tag] = c.model
+            SIM.fields[tag] = ent["field"]
+            SIM.rec(k="clone", i=op["inst"], to=tag, info={"shallow": True, "model_shared": c.model is sm.model})
+            return None
         if op["how"] == "deepcopy":
             c = copy.deepcopy(sm)
         else:
             c = pickle.loads(pickle.dumps(sm))
-        tag = op["as"]
         info = {"model_shared": c.model is sm.model,
                 "listeners_shared": [r for r, o in ent["listeners"].items()
                                      if any(o is x for x in getattr(c, "_listeners", {}))],
